@@ -194,6 +194,20 @@ macro_rules! define_hasher {
             }
         }
 
+        /// Verification hooks (only with `--cfg cryptocorrosion_verif`): access to the byte position.
+        #[cfg(cryptocorrosion_verif)]
+        impl<N> $name<N>
+        where
+            N: Unsigned + ArrayLength<u8> + NonZero + Default,
+        {
+            pub fn verif_set_counter(&mut self, bytes: u64) {
+                self.state.t.0 = bytes;
+            }
+            pub fn verif_counter(&self) -> u64 {
+                self.state.t.0
+            }
+        }
+
         impl<N> Default for $name<N>
         where
             N: Unsigned + ArrayLength<u8> + NonZero + Default,
